@@ -506,6 +506,37 @@ def run_field_shadow(j, rows):
                 break
 
 
+def run_self_containment(j):
+    """`{ ? }.set(key, value)` refuses every value that contains the receiver, wherever it sits in the value (any position of
+    a list, nested lists, object fields, options) — on both runtimes; a value without the receiver is stored."""
+    ctx = j.ctx
+    shapes = [("o", True), ("[o]", True), ("[o, p]", True), ("[p, o]", True), ("[p, q, o]", True), ("[[p], [p, o]]", True), ("new { items: [p, o] }", True),
+              ("new { a: p, b: new { c: [[q], [o]] } }", True), ("?[p, o]", True), ("?o", True), ("[p, q]", False), ("new { items: [p, q] }", False), ("?[p]", False)]
+    progs = []
+    for shape, refused in shapes:
+        src = ('fn main() { let o = new { ? }; let p = new { ? }; let q = new { ? }; p.set("n", 1); q.set("p", p); '
+               'try { o.set("k", ' + shape + '); println("stored", o.keys()); } catch e { println("refused", e.message); } println(o.keys().len()); }')
+        progs.append((shape, refused, src))
+    outs = parallel_go("run", [f"(run (main {core.xhex(p)}))" for _, _, p in progs])
+    for (shape, refused, src), g in zip(progs, outs):
+        j.stats["self_containment_programs"] = j.stats.get("self_containment_programs", 0) + 1
+        ctx.count(case_key=src, nontrivial=True)
+        rep = {"kind": "prog", "main": src, "rep": "anyobj", "member": "set"}
+        if g.startswith(("CRASH", "HANG", "PANIC")):
+            j.violate(("prog-crash", "self-containment", shape), rep, f"the accepted program `{src}` crashes the host: {g[:140]}")
+            continue
+        parts = dict(p.split("=", 1) for p in g.split(" | ") if "=" in p)
+        if not parts.get("A", "").startswith("ACCEPT"):
+            j.tie(f"inlang-rejected:{src}: {parts.get('A')}")
+            continue
+        want = "refused an any-object cannot contain itself\n0\n" if refused else "stored [k]\n1\n"
+        for be in ("VM", "TREE"):
+            o = progstream.parse_outcome(parts.get(be))
+            if o["cls"] != "OK" or o.get("out") != want:
+                j.violate(("self-containment", be, shape), rep, f"{{ ? }}.set with the value {shape} on the {be} backend: ends {o['cls']} out={o.get('out', '')[-70:]!r}, expected {want!r}")
+                break
+
+
 def run(ctx):
     st = core.prepare(ctx, MODULES)
     ctx.assumptions += [
@@ -540,6 +571,7 @@ def run(ctx):
     else:
         run_sequences(j, 60000, 14, 12000)
     run_field_shadow(j, rows)
+    run_self_containment(j)
     ctx.coverage.update(j.stats)
     ctx.coverage["exhaustive"] = True
     ctx.coverage["rule"] = ("the regenerated analyzer member table (every representative x every member) x boundary receivers "
